@@ -5,10 +5,11 @@ C13, single values on the remaining discrete encoder paths:
   * BC3 alpha of a single-alpha block (a BC4 UNORM block, `Enc13.bc4uSingle`) under ANY colour block;
   * BC2 explicit 4-bit alpha (`bc2_alpha`, src/encode/bc.rs lines 218–239, `n4::from_f32`).
 
-The block bytes predicted here for SNORM and BC2 alpha are NOT part of the differential tie (`predictSingle` in
-`Enc13.lean` covers BC7, BC4-type UNORM, 5:6:5 corners and the transparent block); they were compared once, by script,
-with the blocks `dds::encode` emitted for the quick-tier cases (see notes/C13.md), and the decoded values are judged by
-the oracle on every run.
+The definitions (`bc4sClosest`, `fromNorm`, `n4FromU8`, `bc2AlphaSingle`, …) live in the model file `Enc13.lean`; the block
+bytes they predict are part of the differential tie (`Enc13.predictBlock`: the BC2 alpha bytes of every block without alpha
+dithering, the SNORM `closest` block of every constant channel that passes the guard), and the decoded values are judged
+by the oracle on every run.  The f32 steps behind the closed forms are proved in `Proofs/Enc13F32.lean`; the per-pixel
+BC2 rule for blocks of varying alpha is `Proofs/Enc13Tie.bc2_alpha_block`.
 -/
 import DdsModel.Enc13
 import DdsModel.Proofs.Enc13
